@@ -482,11 +482,20 @@ func (c *UConn) Write(b []byte) (int, error) {
 }
 
 func (uconn *UConn) ApplyConfig() error {
+	hasSNI := false
 	for _, ext := range uconn.Extensions {
+		if _, ok := ext.(*SNIExtension); ok {
+			hasSNI = true
+		}
 		err := ext.writeToUConn(uconn)
 		if err != nil {
 			return err
 		}
+	}
+	if !hasSNI && uconn.HandshakeState.Hello != nil {
+		// No server_name extension is sent (e.g. after RemoveSNIExtension): do not
+		// report a server name the server never saw in ConnectionState.ServerName.
+		uconn.HandshakeState.Hello.ServerName = ""
 	}
 	return nil
 }
